@@ -14,8 +14,11 @@ package main
 //
 // Output of one case (input of build/msi_oracle):
 //   C <case index> <variant> <cores>
-//   S <cycle> <mult> \t <cores> <l1 line size> <l3 line size> \t ST.. \t L1.. \t SEM.. \t CMD.. \t TX.. \t L3.. \t L3D.. \t L3K.. \t MEM..
+//   S <cycle> <mult> \t <cores> <l1 line size> <l3 line size> \t ST.. \t L1.. \t SEM.. \t CMD.. \t TX.. \t L3.. \t L3D.. \t L3K.. \t MEM.. \t REF..
 //   E <outcome and statistics>
+// REF (msi-rig only, "-" otherwise and after the first injected flush): for every L1-sized line a
+// completed write touched, the bytes the completed writes left in it (initial memory elsewhere) - the
+// data-value reference of clause D_current_value_is_last_write (Msi/L3Invariant.v).
 // A snapshot that equals the previous one is not repeated: <mult> is the
 // number of consecutive cycles it was observed in.
 
@@ -181,6 +184,8 @@ type snapSink struct {
 	prevL1    map[[2]int32]bool
 	cmdsSeen  map[string]bool
 	every     int
+	ref       func() string // data-value reference of the driver (nil: none)
+	lastRef   string
 }
 
 func newSnapSink(every int) *snapSink {
@@ -236,13 +241,18 @@ func (k *snapSink) add(cycle int, s *comp.VerifMsiSnapshot) {
 	for _, c := range s.Cmds {
 		k.cmdsSeen[fmt.Sprintf("%d:%d:%d", c.Core, c.Line, c.Kind)] = true
 	}
-	if k.mult > 0 && k.lastSnap != nil && sameSnapshot(k.lastSnap, s) {
+	ref := "-"
+	if k.ref != nil {
+		ref = k.ref()
+	}
+	if k.mult > 0 && k.lastSnap != nil && ref == k.lastRef && sameSnapshot(k.lastSnap, s) {
 		k.mult++
 		return
 	}
 	k.flush()
-	k.last, k.lastCycle, k.mult = fmtSnapshot(s), cycle, 1
+	k.last, k.lastCycle, k.mult = fmtSnapshot(s)+"\t"+ref, cycle, 1
 	k.lastSnap = s
+	k.lastRef = ref
 }
 
 func sameLines(a, b []comp.VerifMsiLine) bool {
@@ -459,6 +469,44 @@ func msiRigCase(n int, f []string) {
 		}
 		return 0
 	}
+	// the reference rendered per L1-sized line, cached until the next completed write
+	refDirty, refStr := true, "-"
+	lineSize := int32(64) // replaced by the L1 line size of the first snapshot
+	sink.ref = func() string {
+		if flushed > 0 {
+			return "-"
+		}
+		if !refDirty {
+			return refStr
+		}
+		refDirty = false
+		lines := map[int32]bool{}
+		for a := range ref {
+			lines[a-((a%lineSize)+lineSize)%lineSize] = true
+		}
+		bases := make([]int32, 0, len(lines))
+		for b := range lines {
+			bases = append(bases, b)
+		}
+		sort.Slice(bases, func(i, j int) bool { return bases[i] < bases[j] })
+		var sb strings.Builder
+		d := make([]int8, lineSize)
+		for i, b := range bases {
+			if i > 0 {
+				sb.WriteByte(' ')
+			}
+			for o := int32(0); o < lineSize; o++ {
+				d[o] = refAt(b + o)
+			}
+			fmt.Fprintf(&sb, "%d:", b)
+			hexData(&sb, d)
+		}
+		refStr = sb.String()
+		if refStr == "" {
+			refStr = "-"
+		}
+		return refStr
+	}
 	cycle := 0
 	var rig msiRig
 	outcome := func() (res string) {
@@ -479,6 +527,9 @@ func msiRigCase(n int, f []string) {
 		initMemory(rig.Memory(), f[3])
 		initMem = append([]int8(nil), rig.Memory()...)
 		s0 := rig.Snapshot()
+		if s0.L1LineSize > 0 {
+			lineSize = int32(s0.L1LineSize)
+		}
 		sink.add(0, &s0)
 		next := make([]int, cores)    // index of the next request per core
 		wait := make([]int, cores)    // cycles to wait before it starts
@@ -541,6 +592,7 @@ func msiRigCase(n int, f []string) {
 					for i, a := range rq.addrs {
 						ref[a] = rq.data[i]
 					}
+					refDirty = true
 				}
 				if done {
 					completed++
